@@ -189,25 +189,31 @@ Proof. unfold firstz, len. rewrite Nat2Z.id. rewrite firstn_app, firstn_all, Nat
 (* --- escapes (CSS Syntax "escape" diagram) ------------------------------------------------------------------- *)
 (* An escape text e comes with a condition nb on the byte that follows it: a hex escape without its optional
    terminating whitespace must not be followed by whitespace (which it would swallow) nor, if shorter than six
-   digits, by another hex digit. *)
+   digits, by another hex digit.  The terminating whitespace is one byte, or CR LF (one whitespace, fix 2cdd145);
+   a lone CR must therefore not be followed by LF. *)
 Definition any_next (c : Z) : bool := true.
 Definition not_ws_next (c : Z) : bool := negb (is_ws c).
 Definition not_hex_ws_next (c : Z) : bool := negb (is_hex c) && negb (is_ws c).
+Definition not_lf_next (c : Z) : bool := negb (c =? 10).
 Definition rune_need (c : Z) : Z := if c <? 224 then 2 else if c <? 240 then 3 else 4.
 
 Inductive esc_text : list Z -> (Z -> bool) -> Prop :=
 | Esc_char c : is_hex c = false -> is_nl c = false -> c < 192 -> esc_text [92; c] any_next
 | Esc_rune c cont : 192 <= c -> len cont = rune_need c - 1 -> esc_text (92 :: c :: cont) any_next
-| Esc_hex_ws h w : all_b is_hex h -> 1 <= len h <= 6 -> is_ws w = true -> esc_text (92 :: h ++ [w]) any_next
+| Esc_hex_ws h w : all_b is_hex h -> 1 <= len h <= 6 -> is_ws w = true -> w <> 13 -> esc_text (92 :: h ++ [w]) any_next
+| Esc_hex_crlf h : all_b is_hex h -> 1 <= len h <= 6 -> esc_text (92 :: h ++ [13; 10]) any_next
+| Esc_hex_cr h : all_b is_hex h -> 1 <= len h <= 6 -> esc_text (92 :: h ++ [13]) not_lf_next
 | Esc_hex6 h : all_b is_hex h -> len h = 6 -> esc_text (92 :: h) not_ws_next
 | Esc_hex h : all_b is_hex h -> 1 <= len h < 6 -> esc_text (92 :: h) not_hex_ws_next.
 
 Lemma esc_text_bs e nb : esc_text e nb -> exists e', e = 92 :: e' /\ 1 <= len e'.
 Proof.
-  intros [c _ _ _|c cont Hc Hl|h w _ Hl _|h _ Hl|h _ Hl]; eexists; (split; [reflexivity|]).
+  intros [c _ _ _|c cont Hc Hl|h w _ Hl _ _|h _ Hl|h _ Hl|h _ Hl|h _ Hl]; eexists; (split; [reflexivity|]).
   - lens; lia.
   - lens; lia.
   - rewrite len_app. change (len [w]) with 1. lia.
+  - rewrite len_app. change (len [13; 10]) with 2. lia.
+  - rewrite len_app. change (len [13]) with 1. lia.
   - lia.
   - lia.
 Qed.
@@ -227,10 +233,30 @@ Qed.
 Lemma hex_not_nl c : is_hex c = true -> ((c =? 10) || (c =? 12)) = false /\ (c =? 13) = false /\ is_ws c = false.
 Proof. intros H. cls. lia. Qed.
 
+Lemma escape_ws_one w x : is_ws w = true -> w <> 13 -> escape_ws (w :: x) = Some 1.
+Proof.
+  intros Hw H13. unfold escape_ws, consume_newline, consume_whitespace. rewrite !peekz_0. cbn [option_bind].
+  replace (w =? 13) with false by lia. destruct ((w =? 10) || (w =? 12)); cbn [option_bind Z.ltb Z.compare]; [reflexivity|].
+  rewrite Hw. reflexivity.
+Qed.
+Lemma escape_ws_crlf x : escape_ws (13 :: 10 :: x) = Some 2.
+Proof. unfold escape_ws, consume_newline. rewrite peekz_0, peekz_1, peekz_0. reflexivity. Qed.
+Lemma escape_ws_cr r : hd0 r <> 10 -> escape_ws (13 :: r ++ [0]) = Some 1.
+Proof.
+  intros H. unfold escape_ws, consume_newline. rewrite peekz_0, peekz_1, peekz_sent_0. cbn [option_bind Z.eqb Pos.eqb orb].
+  replace (hd0 r =? 10) with false by lia. reflexivity.
+Qed.
+Lemma escape_ws_none r : is_ws (hd0 r) = false -> escape_ws (r ++ [0]) = Some 0.
+Proof.
+  intros H. unfold escape_ws, consume_newline, consume_whitespace. rewrite !peekz_sent_0. cbn [option_bind].
+  replace ((hd0 r =? 10) || (hd0 r =? 12)) with false by (revert H; cls; lia).
+  replace (hd0 r =? 13) with false by (revert H; cls; lia). cbn [option_bind Z.ltb Z.compare]. rewrite H. reflexivity.
+Qed.
+
 Lemma escape_run e nb r : esc_text e nb -> nb (hd0 r) = true -> consume_escape (e ++ r ++ [0]) = Some (len e).
 Proof.
   intros He Hnb. unfold consume_escape.
-  destruct He as [c Hh Hn Hc|c cont Hc Hl|h w Hh Hl Hw|h Hh Hl|h Hh Hl]; cbn [app]; rewrite peekz_0; cbn [option_bind negb Z.eqb Pos.eqb tl].
+  destruct He as [c Hh Hn Hc|c cont Hc Hl|h w Hh Hl Hw Hw13|h Hh Hl|h Hh Hl|h Hh Hl|h Hh Hl]; cbn [app]; rewrite peekz_0; cbn [option_bind negb Z.eqb Pos.eqb tl].
   - unfold consume_newline, consume_hexdigit. rewrite !peekz_0. cbn [option_bind].
     replace ((c =? 10) || (c =? 12)) with false by (cls; lia). replace (c =? 13) with false by (cls; lia).
     cbn [option_bind Z.ltb Z.compare]. rewrite Hh. cbn [Z.ltb Z.compare]. replace (192 <=? c) with false by lia.
@@ -251,15 +277,34 @@ Proof.
     rewrite <- app_assoc. cbn [app].
     replace (h ++ w :: r ++ [0]) with (h ++ (w :: r) ++ [0]) by reflexivity.
     rewrite (hex_upto_run 5 h (w :: r) Hh') by (try (intros _; cbn [hd0]; cls; lia); lens; lia).
-    cbn [option_bind]. rewrite skipz_len_app. unfold consume_whitespace. cbn [app]. rewrite peekz_0. cbn [option_bind]. rewrite Hw.
+    cbn [option_bind]. rewrite skipz_len_app. cbn [app]. rewrite (escape_ws_one w _ Hw Hw13). cbn [option_bind].
     rewrite !len_cons, len_app. change (len [w]) with 1. f_equal. lia.
   - destruct h as [|h0 h]; [lens; lia|]. inversion Hh as [|? ? Hh0 Hh']; subst. cbn [app].
     destruct (hex_not_nl h0 Hh0) as (Hn1 & Hn2 & _).
     unfold consume_newline, consume_hexdigit. rewrite !peekz_0. cbn [option_bind]. rewrite Hn1, Hn2.
     cbn [option_bind Z.ltb Z.compare]. rewrite Hh0. cbn [Z.ltb Z.compare tl].
+    rewrite <- app_assoc. cbn [app].
+    replace (h ++ 13 :: 10 :: r ++ [0]) with (h ++ (13 :: 10 :: r) ++ [0]) by reflexivity.
+    rewrite (hex_upto_run 5 h (13 :: 10 :: r) Hh') by (try (intros _; reflexivity); lens; lia).
+    cbn [option_bind]. rewrite skipz_len_app. cbn [app]. rewrite escape_ws_crlf. cbn [option_bind].
+    rewrite !len_cons, len_app. change (len [13; 10]) with 2. f_equal. lia.
+  - destruct h as [|h0 h]; [lens; lia|]. inversion Hh as [|? ? Hh0 Hh']; subst. cbn [app].
+    destruct (hex_not_nl h0 Hh0) as (Hn1 & Hn2 & _).
+    unfold consume_newline, consume_hexdigit. rewrite !peekz_0. cbn [option_bind]. rewrite Hn1, Hn2.
+    cbn [option_bind Z.ltb Z.compare]. rewrite Hh0. cbn [Z.ltb Z.compare tl].
+    rewrite <- app_assoc. cbn [app].
+    replace (h ++ 13 :: r ++ [0]) with (h ++ (13 :: r) ++ [0]) by reflexivity.
+    rewrite (hex_upto_run 5 h (13 :: r) Hh') by (try (intros _; reflexivity); lens; lia).
+    cbn [option_bind]. rewrite skipz_len_app. cbn [app].
+    unfold not_lf_next in Hnb. apply negb_true_iff in Hnb. rewrite escape_ws_cr by lia. cbn [option_bind].
+    rewrite !len_cons, len_app. change (len [13]) with 1. f_equal. lia.
+  - destruct h as [|h0 h]; [lens; lia|]. inversion Hh as [|? ? Hh0 Hh']; subst. cbn [app].
+    destruct (hex_not_nl h0 Hh0) as (Hn1 & Hn2 & _).
+    unfold consume_newline, consume_hexdigit. rewrite !peekz_0. cbn [option_bind]. rewrite Hn1, Hn2.
+    cbn [option_bind Z.ltb Z.compare]. rewrite Hh0. cbn [Z.ltb Z.compare tl].
     rewrite (hex_upto_run 5 h r Hh') by (lens; lia).
-    cbn [option_bind]. rewrite skipz_len_app. unfold consume_whitespace. rewrite peekz_sent_0. cbn [option_bind].
-    unfold not_ws_next in Hnb. replace (is_ws (hd0 r)) with false by (destruct (is_ws (hd0 r)); [discriminate|reflexivity]).
+    cbn [option_bind]. rewrite skipz_len_app.
+    unfold not_ws_next in Hnb. apply negb_true_iff in Hnb. rewrite (escape_ws_none r Hnb). cbn [option_bind].
     rewrite !len_cons. f_equal. lia.
   - destruct h as [|h0 h]; [lens; lia|]. inversion Hh as [|? ? Hh0 Hh']; subst. cbn [app].
     destruct (hex_not_nl h0 Hh0) as (Hn1 & Hn2 & _).
@@ -268,8 +313,8 @@ Proof.
     unfold consume_newline, consume_hexdigit. rewrite !peekz_0. cbn [option_bind]. rewrite Hn1, Hn2.
     cbn [option_bind Z.ltb Z.compare]. rewrite Hh0. cbn [Z.ltb Z.compare tl].
     rewrite (hex_upto_run 5 h r Hh') by (try (intros _; exact Hb1); lens; lia).
-    cbn [option_bind]. rewrite skipz_len_app. unfold consume_whitespace. rewrite peekz_sent_0. cbn [option_bind].
-    rewrite Hb2. rewrite !len_cons. f_equal. lia.
+    cbn [option_bind]. rewrite skipz_len_app. rewrite (escape_ws_none r Hb2). cbn [option_bind].
+    rewrite !len_cons. f_equal. lia.
 Qed.
 
 Lemma escape_fail r : r = [] \/ is_nl (hd0 r) = true -> consume_escape (92 :: r ++ [0]) = Some 0.
@@ -1636,7 +1681,7 @@ Proof.
   repeat split.
   - apply TS_ident; [|nf_solve|cbn; lia|exact I].
     apply IT_core. apply (IC_esc [92; 52; 49; 32] any_next [98]); [|reflexivity|apply NB_char; [reflexivity|constructor]].
-    apply (Esc_hex_ws [52; 49] 32); [apply Hall; reflexivity|unfold len; cbn; lia|reflexivity].
+    apply (Esc_hex_ws [52; 49] 32); [apply Hall; reflexivity|unfold len; cbn; lia|reflexivity|lia].
   - apply TS_ws; [discriminate|apply Hall; reflexivity|reflexivity].
   - apply (TS_url_unquoted [117; 114; 108] [] [97; 92; 41; 98] [] [41]);
       [exact Hurl|constructor| |constructor|reflexivity|constructor].
